@@ -118,5 +118,19 @@ fn classify<E: El>(kind: StageKind, failure: &str, it: &ItemRec<E>, outputs: &[V
             }
         }
     }
+    // F7 in a direct join: the stage below (a dynamic Head/Tail/Skip, not
+    // visible to a tap) answered a limit change with a Truncate and the sort
+    // stage forwarded it. A sort stage has no other way to emit a Truncate.
+    if let StageKind::Sort | StageKind::SortBy | StageKind::SortByKey = kind {
+        let lower_truncated = match it {
+            ItemRec::LowerLim => true,
+            // a source Truncate{n} that the stage below turned into its own Truncate{m}
+            ItemRec::Src { diffs, .. } => diffs.iter().any(|d| matches!(d, VectorDiff::Truncate { .. })),
+            _ => false,
+        };
+        if lower_truncated && failure == "view" && outputs.len() == 1 && matches!(outputs[0], VectorDiff::Truncate { .. }) {
+            return SIG_F7.into();
+        }
+    }
     format!("{}/{}/{}", failure, kind.name(), item_descr(it))
 }
